@@ -54,7 +54,8 @@ PROPS = {
         "trusted_base": ["SQLite primary-key enforcement"],
     },
     "C06": {
-        "theorems": {**thms(P + "C06", ["C06_oldest_first", "C06_buffer_faithful", "C06_isolation"]), **thms(P + "C02", ["C02_decrypt_is_spec", "C02_mic_is_spec"])},
+        "theorems": {**thms(P + "C06", ["C06_oldest_first", "C06_buffer_faithful", "C06_isolation"]), **thms(P + "C02", ["C02_decrypt_is_spec", "C02_mic_is_spec"]),
+                     "LospanVerif.Props.C06All": ["LospanVerif.Props.C06.C06_payload_from_own_queue", "LospanVerif.Props.C06.finv_step", "LospanVerif.Props.C06.pl_take_self"]},
         "ties": PIPE_TIES,
         "engines": ["pipeseq", "phyenc"],
         "assumptions": ["the server never queues MAC commands into the output buffer (AddMACCommand has no caller)"],
@@ -205,9 +206,9 @@ MANIFEST_TEXT = {
         "technique": "Lean 4 proof (thread-pool invariant by induction over all event lists; decision logic) + regenerated handler skeleton tie + trace correspondence + Spec-device oracle",
     },
     "C06": {
-        "level": "Lean theorems for every state: the message picked for an accepted uplink is an unsent message of that device and none of its unsent messages is older; what is put into and taken out of the output buffer is that message's port and bytes with the confirmed type iff requested; buffers of different devices are independent; the encoding is the spec's (C02). Histories of submissions and uplinks of several devices: every emitted frame compared byte for byte with the model (which encodes with the Lean AES) on the real pipeline.",
-        "note": "at-most-one-per-uplink and only-after-accepted-uplink are decided by the history correspondence",
-        "technique": "Lean 4 proof (sorted-insertion minimum, buffer round trip) + trace correspondence",
+        "level": "Lean theorems. For EVERY event list (all interleavings of handlers, scheduler, sendAt and encoders of any number of devices, faults, crashes): every payload handed to the gateway for a device is (a piece of, when the message exceeds the data-rate limit) a message queued for THAT device - no device ever receives data queued for another (C06_payload_from_own_queue: invariant following the payload from the outbox row through the device's output-buffer entry and the assembled frame to the encoder). For every state: the message picked for an accepted uplink is an unsent message of that device and none of its unsent messages is older (C06_oldest_first); what is put into and taken out of the output buffer is that message's port and bytes with the confirmed type iff requested (C06_buffer_faithful); buffers of different devices are independent (C06_isolation); the encoding is the spec's (C02). Histories of submissions and uplinks of several devices: every emitted frame is decoded by the Lean device and judged by the reference observer (address, next counter, port, bytes, confirmed type, oldest first, at most one per accepted uplink, none for rejected frames), and compared with the model byte for byte.",
+        "note": "partial: ordering and 'at most one frame per accepted uplink' over histories are decided by the reference observer on the implementation plus state-level theorems, not by a history-level theorem",
+        "technique": "Lean 4 proof (payload-provenance invariant by induction over all event lists; decision logic; model = spec for the cipher) + trace correspondence + reference observer",
     },
     "C07": {
         "level": "Lean theorems for EVERY event list (all interleavings of handler/scheduler/sendAt/encoder steps at storage-operation granularity, any number of frames and devices, injected faults, crashes): no (device, FCnt) of a running counter epoch is handed to the gateway twice and every emitted one was handed out by NextFCntDn (C07_emitted_counter_unique: a thread-pool invariant 'every counter in circulation - held by an encoder thread or already emitted - was issued, at most once', Proofs/Circ.lean); the counters handed out strictly increase and stay below the stored counter, also across crashes (C07_issued_strictly_increasing, C07_issued_below_stored, C07_next_is_fresh); per step: the encoder encodes with exactly the counter handed out, after it has been stored past, and only its last step emits. Tied by facts (encoder call order and error dispositions, NextFCntDn is one critical section with both statements in one transaction) and by trace validation under the uplink-vs-encoder and old-counter-vs-encoder schedules; every emitted frame is decoded by the Lean device and (session key, counter) checked unique and equal to the reference counter.",
